@@ -18,7 +18,8 @@ leaf generators once `self.depth >= cfg.limits.max_depth` (or `only_leaves`), an
   along the path, `cnt` = number of calls on the path made under a raised counter (offset > 0),
   `ol` = the `only_leaves` argument composed along the path (`pass` = the generator's own),
   `void` = whether the type argument is the void type (`no|yes|maybe`), `cut` = the
-  `self.depth > K * max_depth` test inside the `gen_bottom` argument.
+  `self.depth > K * max_depth` test inside the `gen_bottom` argument, `cutExempt` = the guard of that test
+  (the conjuncts `not X` beside it: children for which `X` holds are not cut).
 * `roots`: the same for the declaration-level methods (`gen_lambda`, `gen_func_decl`,
   `gen_class_decl`, …): each starts a new **region**.
 
@@ -54,6 +55,9 @@ structure FSite where
   targ : String
   void : String
   cut : Option (String × Nat)
+  /-- the guard of the cut: texts `X` of the conjuncts `not X` beside the depth comparison (a child for which
+      one of them holds is not cut) -/
+  cutExempt : List String := []
 deriving Repr, DecidableEq, Inhabited
 
 structure FGen where
@@ -116,10 +120,16 @@ def olNext (arg : String) (ol : Bool) : Bool :=
 /-- a child at this site may be void / non-void -/
 def voidOK (s : FSite) (v : Bool) : Prop := (s.void = "no" → v = false) ∧ (s.void = "yes" → v = true)
 
-/-- `K` of a `self.depth > K * max_depth` cut -/
+/-- the only exemption from the cut the bound tolerates: the type of the child (the type argument of the call,
+    as written) is primitive — such a child comes from a constant generator, a leaf of the shape.  Any other
+    guard (an exemption of all built-in types, which include the recursively generated `Array<…>` and
+    `FunctionN<…>`; a random test; …) lets non-leaf children through above the cut. -/
+def exemptOK (s : FSite) : Bool := s.cutExempt.all (fun x => x == s.targ ++ ".is_primitive()")
+
+/-- `K` of a `self.depth > K * max_depth` cut that applies to every non-primitive argument type -/
 def cutBound (s : FSite) : Option Nat :=
   match s.cut with
-  | some (op, k) => if op == ">" then some k else none
+  | some (op, k) => if op == ">" && exemptOK s then some k else none
   | none => none
 
 /-- with a cut, a child that is not the bottom constant needs `d' ≤ K * m` -/
